@@ -540,3 +540,66 @@ def loop_coverage(body, call):
     if oks & r2:
         return False, 'the loop can be left early with a success result (break / early return)', it
     return True, 'every iteration reaches the call; the loop ends only by exhaustion or error', it
+
+
+# ------------------------------------------------------------------ comparison normal forms (A10 on branch conditions)
+def comparison_forms(ctx, fn):
+    """{(operandA, operandB) unordered-sorted: canonical comparison} for every comparison that decides a branch in fn
+    (user code of the fn body and of its nested closures); comparisons by trait calls (PartialOrd::lt ...) included"""
+    from mir import canon
+    out = {}
+    defs = [d for d in ctx.facts.body_defs() if d == fn or d.startswith(fn + '::{closure')]
+    for d in sorted(defs):
+        b = ctx.body(d)
+        seen_exprs = []
+        for bb, t, e in switch_exprs(b):
+            if t.get('ty') != 'bool':
+                continue
+            seen_exprs.append(b.pexpr_operand(t['op']))
+        # closures used as predicates return the comparison
+        if d != fn:
+            for rb, kind, det in b.return_sites():
+                pass
+            for blk in sorted(b.reach):
+                for s in b.stmts(blk):
+                    if s.get('lhs') == [0] and not s.get('x', '').startswith('m:'):
+                        seen_exprs.append(b._pexpr_rvalue(s['rv'], 0, frozenset()))
+        for e in seen_exprs:
+            for x in walk(e):
+                if x[0] == 'bin' and x[1] in ('Lt', 'Le', 'Gt', 'Ge', 'Eq', 'Ne'):
+                    a, c = canon(x[2], 0, 1), canon(x[3], 0, 1)
+                    key = tuple(sorted((a, c)))
+                    out.setdefault(key, set()).add(canon(x, 0, 1))
+                elif x[0] == 'call' and x[1].split('::')[-1] in ('lt', 'le', 'gt', 'ge', 'eq', 'ne') and len(x[2]) == 2 and ('PartialOrd' in x[1] or 'PartialEq' in x[1]):
+                    a, c = canon(x[2][0], 0, 1), canon(x[2][1], 0, 1)
+                    key = tuple(sorted((a, c)))
+                    op = x[1].split('::')[-1]
+                    form = {'lt': '(%s < %s)', 'le': '(%s <= %s)', 'gt': '(%s < %s)', 'ge': '(%s <= %s)', 'eq': '(%s == %s)', 'ne': '(%s != %s)'}[op]
+                    if op in ('gt', 'ge'):
+                        a, c = c, a
+                    out.setdefault(key, set()).add(form % (a, c))
+    return out
+
+
+def check_comparisons(ctx, rep, rid, table):
+    """table: {fn: [expected canonical comparisons]} — each must still be present; a comparison over the same
+    operand pair with a different operator/orientation is a violation; additional comparisons are tolerated."""
+    for fn, expected in table.items():
+        if not ctx.has(fn):
+            rep.anchor_lost(rid, fn)
+            continue
+        got = comparison_forms(ctx, fn)
+        allforms = set()
+        for v in got.values():
+            allforms |= v
+        for form in expected:
+            if form in allforms or (form.startswith('re:') and any(re.search(form[3:], f) for f in allforms)):
+                rep.ob(rid, fn, form, True, None, None)
+                continue
+            # find same operand pair
+            alt = None
+            for key, forms_ in got.items():
+                if all(k in form for k in key):
+                    alt = sorted(forms_)
+            rep.ob(rid, fn, form, False, None,
+                   'the comparison `%s` confirmed for this function is gone%s' % (form, '; the same operands are now compared as %s' % alt if alt else ''))
